@@ -262,9 +262,17 @@ def run(ctx):
                 txt = pa.vfmt(p.ret)
                 nm = names.get(fld)
                 ok = nm is not None and ('"%s"' % nm) in txt
+                # the value is the slot's own text - as_str(), possibly as bytes - and nothing derived from it (not `.host()`, not a prefix)
+                mval = re.search(r'tuple\("%s", (.*)\)\)\)$' % re.escape(nm or "?"), txt)
+                if ok and mval:
+                    v_ = mval.group(1)
+                    v_ = re.sub(r"^as_bytes@bb\d+\((.*)\)$", r"\1", v_)
+                    ok = re.fullmatch(r"as_str@bb\d+\(take@bb\d+\(param_1\.pseudo<Some>\.0\.%s\)<Some>\.0\)" % fld, v_) is not None
+                elif ok:
+                    ok = False
                 order.append(fld)
                 ctx.check(ok, "C12-d", it.key, "pseudo %s yielded under its own name, taken out (at most once)" % fld,
-                          "pseudo field `%s` is yielded as %s" % (fld, txt[:120]), "")
+                          "pseudo field `%s` is yielded as %s (expected its name with the whole as_str() of the slot)" % (fld, txt[:160]), "")
         ctx.check(sorted(set(order)) == sorted(names), "C12-d", it.key, "all six pseudo fields can be yielded", "pseudo fields yielded: %s" % order, str(order))
     hr = ru.need(ctx, "C12-d", H + "Header::request")
     if hr:
